@@ -85,6 +85,56 @@ Section Files.
           -- constructor; [split; assumption|exact I6].
   Qed.
 
+  (** number of blocks of key [k] in the input files (Go's [sort.Stable] is the insertion sort
+      only up to 20 of them) *)
+  Definition fcount (k : N) (f : file) : nat :=
+    length (concat (map (fun g : kgroup => if (gkey g =? k)%N then snd (fst g) else []) f)).
+  Fixpoint kcount (k : N) (fs : list file) : nat :=
+    match fs with [] => 0%nat | f :: r => (fcount k f + kcount k r)%nat end.
+
+  Lemma fcount_cons k (g : kgroup) (f : file) :
+    fcount k (g :: f) = ((if (gkey g =? k)%N then length (snd (fst g)) else 0) + fcount k f)%nat.
+  Proof. unfold fcount. cbn [map concat]. rewrite app_length. destruct (gkey g =? k)%N; reflexivity. Qed.
+
+  Lemma fcount_none k (f : file) : (forall g, In g f -> gkey g <> k) -> fcount k f = 0%nat.
+  Proof.
+    induction f as [|g r IH]; intro H; [reflexivity|]. rewrite fcount_cons, IH.
+    - destruct (N.eqb_spec (gkey g) k) as [E|_]; [|reflexivity]. exfalso. apply (H g); [left; reflexivity|exact E].
+    - intros g0 Hg0. apply H. right. exact Hg0.
+  Qed.
+
+  Lemma take_key_count_le k : forall (fs : list file) bs fs',
+    take_key k fs = (bs, fs') -> forall k', (kcount k' fs' <= kcount k' fs)%nat.
+  Proof.
+    induction fs as [|f r IH]; intros bs fs'; cbn [take_key].
+    - intros [= <- <-] k'. lia.
+    - destruct (take_key k r) as [bs0 r'] eqn:E. specialize (IH _ _ eq_refl).
+      destruct f as [|g f'].
+      + intros [= <- <-] k'. cbn [kcount]. specialize (IH k'). lia.
+      + destruct (gkey g =? k)%N; intros [= <- <-] k'; cbn [kcount]; specialize (IH k'); [|lia].
+        rewrite fcount_cons. lia.
+  Qed.
+
+  Lemma take_key_count k : forall (fs : list file) bs fs',
+    take_key k fs = (bs, fs') -> Forall fwf fs -> keys_ge k fs -> length bs = kcount k fs.
+  Proof.
+    induction fs as [|f r IH]; intros bs fs'; cbn [take_key].
+    - intros [= <- <-] _ _. reflexivity.
+    - destruct (take_key k r) as [bs0 r'] eqn:E. intros H W Hge.
+      inversion W as [|? ? Wf Wr]; subst.
+      assert (I1 : length bs0 = kcount k r) by (eapply IH; [reflexivity|exact Wr|]; intros f0 g0 Hf0; apply Hge; right; exact Hf0).
+      destruct f as [|g f'].
+      + inversion H; subst. cbn [kcount]. exact I1.
+      + destruct Wf as [Sk Wg].
+        assert (Htail : forall g', In g' f' -> gkey g' <> k).
+        { intros g' Hg'. pose proof (skeys_tail_gt g f' Sk g' Hg').
+          pose proof (Hge (g :: f') g (or_introl eq_refl) (or_introl eq_refl)). lia. }
+        cbn [kcount]. rewrite fcount_cons, (fcount_none k f' Htail).
+        destruct (N.eqb_spec (gkey g) k) as [Ek|Ek]; inversion H; subst.
+        * rewrite app_length. unfold gblocks. rewrite map_length. lia.
+        * lia.
+  Qed.
+
   Lemma keys_ge_min (fs : list file) k : Forall fwf fs -> min_key fs = Some k -> keys_ge k fs.
   Proof.
     intros W Hm f g Hf Hg. pose proof (min_key_lb fs k Hm) as Hlb.
@@ -120,14 +170,14 @@ Section Files.
   Qed.
 
   Lemma run_files_content (size : nat) (fast : bool) (Hs : (0 < size)%nat) : forall kfuel (fs : list file) sq,
-    Forall fwf fs -> run_files kfuel size fast fs = Some sq ->
+    Forall fwf fs -> (forall k, (kcount k fs <= 20)%nat) -> run_files kfuel size fast fs = Some sq ->
     forall k, concat (map b_vals (seq_points k sq)) = content_spec k fs /\
               Forall (fun b => wf_blk b = true) (seq_points k sq) /\ ordered (seq_points k sq) = true.
   Proof.
     assert (Hnone : forall fs : list file, min_key fs = None -> forall k, content_spec k fs = []).
     { intros fs Hm k. apply (min_key_fold_none fs None) in Hm as [_ Hm]. apply content_spec_empty.
       intros f Hf. rewrite Forall_forall in Hm. rewrite (Hm f Hf). reflexivity. }
-    induction kfuel as [|kf IH]; intros fs sq W; cbn [run_files].
+    induction kfuel as [|kf IH]; intros fs sq W Hsm; cbn [run_files].
     - destruct (min_key fs) eqn:Em; [discriminate|]. intros [= <-] k. cbn.
       rewrite (Hnone fs Em k). repeat split; auto.
     - destruct (min_key fs) as [k0|] eqn:Em.
@@ -138,8 +188,11 @@ Section Files.
       intros [= <-] k.
       pose proof (keys_ge_min fs k0 W Em) as Hge.
       destruct (take_key_spec k0 fs bs fs' Etk W Hge) as [T1 [T2 [T3 [T4 [T5 T6]]]]].
-      destruct (run_key_content size fast bs _ out Hs T4 T5 Erk) as [R1 [R2 R3]].
-      specialize (IH fs' rest T6 Erf).
+      assert (Hlen : (length bs <= 20)%nat) by (rewrite (take_key_count k0 fs bs fs' Etk W Hge); apply Hsm).
+      destruct (run_key_content size fast bs _ out Hs Hlen T4 T5 Erk) as [R1 [R2 R3]].
+      assert (Hsm' : forall k, (kcount k fs' <= 20)%nat)
+        by (intro k1; pose proof (take_key_count_le k0 fs bs fs' Etk k1); specialize (Hsm k1); lia).
+      specialize (IH fs' rest T6 Hsm' Erf).
       rewrite seq_points_app.
       destruct (N.eq_dec k0 k) as [<-|Hne].
       + (* the key just written: nothing of it is left in the files *)
@@ -156,5 +209,32 @@ Section Files.
       + rewrite seq_points_pair_other by exact Hne. cbn [app].
         destruct (IH k) as [I1 [I2 I3]]. split; [|split; assumption].
         rewrite I1. unfold content_spec. rewrite (T2 k) by congruence. reflexivity.
+  Qed.
+  (** boolean form of [fwf], for concrete witnesses *)
+  Definition in64_b (p : Z * V) : bool := (MinInt64 <=? tm p) && (tm p <=? MaxInt64).
+  Definition fwf_b (f : file) : bool :=
+    wf_file f && forallb (fun g : kgroup => forallb (fun rb : rawblk V => forallb in64_b (snd rb)) (snd (fst g))) f.
+
+  Lemma wf_blk_bwf (b : blk) : wf_blk b = true -> (forall p, In p (b_vals b) -> in64_b p = true) -> bwf b.
+  Proof.
+    unfold wf_blk, wf_block. intros H R.
+    apply andb_true_iff in H as [H Hmax]. apply andb_true_iff in H as [H Hmin]. apply andb_true_iff in H as [Hne Hs].
+    split.
+    - destruct (b_vals b); [discriminate|congruence].
+    - apply ssorted_b_spec. exact Hs.
+    - lia.
+    - lia.
+    - intros p Hp. specialize (R p Hp). unfold in64_b in R. lia.
+  Qed.
+
+  Lemma fwf_b_spec (f : file) : fwf_b f = true -> fwf f.
+  Proof.
+    unfold fwf_b, wf_file. intro H. apply andb_true_iff in H as [H R]. apply andb_true_iff in H as [Hk Hg].
+    split; [apply strict_keys_spec; exact Hk|].
+    intros g Hin. rewrite forallb_forall in Hg, R. specialize (Hg g Hin). specialize (R g Hin).
+    unfold wf_group in Hg. apply andb_true_iff in Hg as [_ Hb]. rewrite forallb_forall in Hb.
+    apply Forall_forall. intros b Hbin. apply wf_blk_bwf; [apply Hb; exact Hbin|].
+    unfold gblocks in Hbin. apply in_map_iff in Hbin as [rb [<- Hrb]]. cbn [b_vals fresh].
+    rewrite forallb_forall in R. specialize (R rb Hrb). rewrite forallb_forall in R. exact R.
   Qed.
 End Files.
